@@ -420,6 +420,19 @@ func c03CheckBody(t vpT, c *c03Case, ins *vpInsert, buckets []*aggregatorBucket,
 		if len(user) >= 150 {
 			cls["wide-body"] = true
 		}
+		for _, sv := range append(k.STags[:], k.TopS) {
+			switch len(sv) {
+			case 128:
+				cls["stag-or-top-len-128"] = true
+			case 127:
+				cls["stag-or-top-len-127"] = true
+			}
+		}
+		for _, h := range []vpArgHost{row.MinHost, row.MaxHost, row.MaxCHost} {
+			if len(h.Str) == 128 {
+				cls["host-len-128"] = true
+			}
+		}
 		if k.TopI != 0 || k.TopS != "" {
 			nontrivial = true
 			cls["string-top"] = true
@@ -764,6 +777,24 @@ func c03Prop(t vpT, c c03Case) (nontrivial bool, classes []string) {
 
 var c03Strings = []string{"a", "bb", "web", "mapped1", "mapped2", "host-x", "host-y", "host-z", "пример", "with space"}
 
+// never mapped: string values at the length limit of a tag value (format.MaxStringLen = 128 bytes, what ingestion trims
+// over-long values to), one byte below it, and multi-byte runes that end exactly at the limit
+var c03Edge = []string{
+	"p" + strings.Repeat("q", 126),       // 127 bytes
+	"r" + strings.Repeat("s", 127),       // 128 bytes
+	"t" + strings.Repeat("u", 125) + "é", // 126 + 2 bytes
+	"v" + strings.Repeat("w", 124) + "€", // 125 + 3 bytes
+	strings.Repeat("я", 64),              // 64 x 2 bytes
+	"z",
+}
+
+func c03DrawString(t *rapid.T, label string) string {
+	if rapid.IntRange(0, 3).Draw(t, label+"edge") == 0 {
+		return rapid.SampledFrom(c03Edge).Draw(t, label+"e")
+	}
+	return rapid.SampledFrom(c03Strings[:5]).Draw(t, label)
+}
+
 func c03GenValue(t *rapid.T, kind int, big bool, hosts []c03Host) c03Value {
 	var v c03Value
 	evN := rapid.IntRange(1, 4).Draw(t, "nev")
@@ -859,14 +890,14 @@ func c03Gen() *rapid.Generator[c03Case] {
 		c.Replica = int32(rapid.IntRange(1, 3).Draw(t, "replica"))
 		c.ShortWindow = rapid.IntRange(2, 4).Draw(t, "sw")
 		c.Now = uint32(1_700_000_000 + rapid.IntRange(0, 599).Draw(t, "now"))
-		c.TopInsert = rapid.SampledFrom([]int{5, 20}).Draw(t, "topinsert")
+		c.TopInsert = rapid.SampledFrom([]int{11, 20}).Draw(t, "topinsert") // a key sees at most 11 distinct tops
 		c.Mappings = map[string]int32{}
 		for i, s := range c03Strings {
 			if strings.HasPrefix(s, "mapped") || rapid.IntRange(0, 3).Draw(t, "mapit") == 0 {
 				c.Mappings[s] = int32(500 + i)
 			}
 		}
-		hosts := []c03Host{{S: "host-x"}, {S: "host-y"}, {S: "host-z"}, {I: 505}, {I: 9001}, {S: "mapped1"}}
+		hosts := []c03Host{{S: "host-x"}, {S: "host-y"}, {S: "host-z"}, {I: 505}, {I: 9001}, {S: "mapped1"}, {S: c03Edge[1]}, {S: c03Edge[3]}}
 		big := rapid.IntRange(0, 24).Draw(t, "big") == 0
 		// a small pool of keys so that contributions overlap
 		type keyT struct {
@@ -886,7 +917,7 @@ func c03Gen() *rapid.Generator[c03Case] {
 				}
 				used[idx] = true
 				if rapid.IntRange(0, 2).Draw(t, "stag") == 0 {
-					k.tags = append(k.tags, c03Tag{I: idx, S: rapid.SampledFrom(c03Strings[:5]).Draw(t, "tags")})
+					k.tags = append(k.tags, c03Tag{I: idx, S: c03DrawString(t, "tags")})
 				} else {
 					k.tags = append(k.tags, c03Tag{I: idx, V: rapid.SampledFrom([]int32{1, 2, 503, 504, -7}).Draw(t, "tagv")})
 				}
@@ -933,7 +964,7 @@ func c03Gen() *rapid.Generator[c03Case] {
 					ntop := rapid.IntRange(1, 3).Draw(t, "ntop")
 					usedTop := map[string]bool{}
 					for j := 0; j < ntop; j++ {
-						s := rapid.SampledFrom(c03Strings[:5]).Draw(t, "tops")
+						s := c03DrawString(t, "tops")
 						if usedTop[s] {
 							continue
 						}
